@@ -35,6 +35,9 @@ type c04prog struct {
 	// FromStart: schedules are explored from the channel proposal on (incl. the start of the
 	// watchers), not only from the open channel.
 	FromStart bool
+	// Final: the last payment also finalises the channel (the final state must reach the watcher
+	// like every other one).
+	Final bool
 }
 
 func (p c04prog) name() string {
@@ -50,6 +53,9 @@ func (p c04prog) name() string {
 	}
 	if p.FromStart {
 		n += "/fromstart"
+	}
+	if p.Final {
+		n += "/final"
 	}
 	return n
 }
@@ -177,7 +183,7 @@ func c04exec(t *testing.T, ssc schedrun.Scenario, o vsched.Options) (*vsched.Sch
 			// a payment may fail once the adversary's registration has been noticed (the channel is
 			// then in dispute); that is not an error of the honest party
 			uctx, ucancel := context.WithTimeout(context.Background(), 10*time.Second)
-			err := ca.Update(uctx, pay(0, 2, false))
+			err := ca.Update(uctx, pay(0, 2, pr.Final && i == pr.Updates-1))
 			ucancel()
 			if err != nil {
 				obs.errs = append(obs.errs, fmt.Sprintf("(payment %d: %s)", i, classify(err)))
@@ -231,6 +237,9 @@ func c04check(ssc schedrun.Scenario, s *vsched.Sched, o any) []schedrun.Verdict 
 	}
 	if pr.Late {
 		site += "/late"
+	}
+	if pr.Final {
+		site += "/final"
 	}
 	var out []schedrun.Verdict
 	seen := map[string]bool{}
@@ -327,6 +336,7 @@ func c04programs(thorough bool) []c04prog {
 	out = append(out, c04prog{Updates: 1, J: 0, Late: true}, c04prog{Updates: 2, J: 0, Late: true}, c04prog{Updates: 2, J: 1, Late: true})
 	out = append(out, c04prog{Updates: 1, J: 0, Late: true, FromStart: true})
 	out = append(out, c04prog{Updates: 1, J: 0, Sub: true, Late: true})
+	out = append(out, c04prog{Updates: 1, J: 0, Late: true, Final: true}, c04prog{Updates: 2, J: 1, Late: true, Final: true}, c04prog{Updates: 2, J: 0, Final: true})
 	if thorough {
 		out = append(out, c04prog{Updates: 2, J: 0, Sub: true}, c04prog{Updates: 2, J: 1, Sub: true})
 	}
